@@ -56,6 +56,9 @@ class InjectedKeyError(InjectedFault, KeyError):
 
 
 STATUS_REPLY = '/status.reply'
+# the recv_port handed to a receive function / responder is not the port the
+# datagram arrived on (kernel's view of the interface's socket)
+PORT_KEY = 'C18/recv-port/not-the-port-the-datagram-arrived-on'
 
 FAULTS = {'Exception': InjectedFault, 'ValueError': InjectedValueError,
           'KeyError': InjectedKeyError}
@@ -108,11 +111,11 @@ class HistoryRunner:
             self.senders = [rig.udp_client()]
             self.src_pool = [self.senders[0], ('127.0.0.1', 1), ('127.0.0.2', None),
                              ('127.0.0.1', None)]
-            self.ports = [rig.itf.port]
+            self.ports = [rig.port]
         else:
             self.senders = list(gen.SENDERS)
             self.src_pool = [(ip, rng.choice([p, None])) for ip, p in gen.SENDERS]
-            self.ports = [rig.itf.port] + list(ports)
+            self.ports = [rig.port] + list(ports)
         self.objs = {}
         self.disps = {}          # (kind, n) -> dispatcher instance of this history
         self.trace = None        # None | 'show' | 'hide'  (OscFunc.trace)
@@ -296,7 +299,7 @@ class HistoryRunner:
         self.objs[rid] = obj
         self.objs[rid]._vf_nparams = spec['nparams']
         port = spec['recv_port']
-        if port is not None and port != self.rig.itf.port and port not in self.rig.extra:
+        if port is not None and port != self.rig.port and port not in self.rig.extra:
             # the library opened the port for this responder
             if self.rig.adopt_port(port) is not None:
                 self.opened_ports.append(port)
@@ -744,7 +747,10 @@ class HistoryRunner:
                 self.violation('C18/wrong-args/time/' + ('message' if tt in (None, 1)
                                else 'bundle'), got=rtime, timetag=tt,
                                expected=self.rig.expected_time(tt), t0=res.t0, t1=res.t1)
-            if raddr != tuple(res.sender) or rport != res.recv_port:
+            if rport != res.recv_port:
+                self.violation(PORT_KEY, got=rport, arrived_on=res.recv_port,
+                               library_says=self.rig.itf.port)
+            if raddr != tuple(res.sender):
                 self.violation('C18/wrong-args/sender-or-port', got=[raddr, rport],
                                expected=[res.sender, res.recv_port])
         if pending and injected and len(msgs) == 1:
@@ -885,6 +891,11 @@ class HistoryRunner:
             if v == 'either':
                 acc.count('verdict_open/template-beyond-message')
                 continue
+            if r.recv_port is not None and r.enabled:
+                # filtered on the receive port: fires for what arrived there
+                # (the true port, see c18_rig.Rig.port), silent for the rest
+                acc.count('recv_port_filter_verdicts/' + ('fires' if v == 'must' and c == 1
+                          else 'silent' if v == 'not' and c == 0 else 'other'))
             if v == 'must' and c == 0 and raisers and not any(
                     q in m.resps and m.order_constrained(rid, q) for q in raisers):
                 # a responder function raised: the library abandons the rest
@@ -927,6 +938,8 @@ class HistoryRunner:
                 self.violation('C18/wrong-args/time/' + ('message' if tt in (None, 1)
                                else 'bundle'), got=time_, timetag=tt,
                                expected=self.rig.expected_time(tt))
+            if p is not None and p != port:
+                self.violation(PORT_KEY, got=p, arrived_on=port, rid=rid)
             if a is not None:
                 import ipaddress
                 if a[0] != sender[0] or a[2] != sender[1] \
@@ -1155,19 +1168,20 @@ def _j(x):
     return x
 
 
-def run(spec, acc, udp=False):
+def run(spec, acc, udp=False, rig=None):
     """Shard entry: one Rig per worker process, one model per history."""
     import os
     from .c18_rig import Rig
     from .common import iter_cases, case_rng, h64
     from .model_dispatch import DispatchModel, selftest
     selftest(); gen.selftest(); osc.selftest()
-    rig = Rig()
+    if rig is None:
+        rig = Rig()
     rig.sink_server()
     ports = []
     if not udp:
         for k in (0, 1):
-            p = rig.open_port(rig.itf.port + 60 + 7 * k)
+            p = rig.open_port(rig.port + 60 + 7 * k)
             if p is not None:
                 ports.append(p)
         acc.count('extra_recv_ports_opened', len(ports))
@@ -1193,3 +1207,4 @@ def run(spec, acc, udp=False):
             acc.sample({'case': i, 'kind': shard, 'history': runner.log})
     acc.count('callbacks_under_main_lock', rig.lock_owned)
     acc.count('callbacks_without_main_lock', rig.lock_not_owned)
+    rig.lock_owned = rig.lock_not_owned = 0
